@@ -33,6 +33,7 @@ def run(chk, tier, proof_ok):
     chk.coverage['distinct_nontrivial'] = chk.coverage.get('distinct_nontrivial', 0) + nruns
     chk.notes += ['index bounds the constructor does not check (hypotheses 0 <= kmin, kmax <= K of '
                   'C10_choice_feasible): ' + t for t in transdim.probe_unchecked_bounds(chk.seed)]
+    chk.notes += ['outside the hypotheses of C10_reachable_wf: ' + t for t in transdim.probe_corner_cases(chk.seed)]
     chk.assumptions += [
         'start values are themselves well formed (index = number of non-NaN components, within the bounds); '
         'the start_position setter checks nothing',
